@@ -5,6 +5,18 @@ rules and the delivery format (nothing from /verif). The sub-agents are then sta
 import json, os, subprocess, sys
 root, wave = sys.argv[1], int(sys.argv[2])
 EMPHASIS = {
+ 9: """   * the ENVIRONMENT the code runs in: the process time zone (TZ), locale, PYTHONHASHSEED, `os.listdir` order, the order of dictionary / set iteration over registries, file name case,
+     path separators, a file that starts with a byte-order mark or uses another encoding / line ending, a directory that also holds unrelated files or sub-directories, symbolic links -
+     a change that is right in the developer's environment and wrong in another, or that makes a result depend on one of these,
+   * the TEXT form of JSON input as opposed to the dict form: `\\u` escapes and surrogate pairs, numbers written `1.0` / `1e2` / `-0` / with many digits for integer / float / boolean
+     properties, duplicate member names, members in an unusual order (`type` or `id` last, `extensions` first), `null` members, very large documents, bytes versus str input,
+   * NUMERIC kinds meeting each other: bool / int / float / Decimal / numeric text where one is expected and another arrives (1 versus 1.0 versus True versus "1"), negative zero, values at
+     2**31, 2**53, 2**63, exponent notation,
+   * a validation or normalisation STEP REMOVED (not weakened) on one rarely used path: a value that is already an instance of the expected class skips `clean`, a second call skips a
+     check the first one made, an `interoperability=True` / `allow_custom=True` branch that returns early, a `try` whose `except` swallows and continues,
+   * file-system store specifics: the file name derived from `modified` (digits, time zone), what counts as the same version, overwriting, `bundlify`, `encoding`, objects without
+     `modified`, ids whose characters are unusual for file names, type directories created by other tools,
+   * anything that makes two runs of the same program give different results (ordering of a returned list, which of two equal candidates is chosen, a timestamp or uuid drawn at import).""",
  8: """   * the per-type TABLES of the object model rather than the generic machinery: one property of one class whose kind / `required` / default / allowed values / bounds / precision / valid
      reference types is slightly off, one entry of a vocabulary or of an `_id_contributing_properties` list dropped or added, one class's `_check_object_constraints` weakened, the order of a
      property table changed - pick classes and properties that are NOT the usual examples (not malware / indicator / file `name`),
